@@ -92,6 +92,31 @@ def _assign_form(stmts: List[ast.stmt], res: str) -> List[ast.stmt]:
     return out
 
 
+def _expr_form(body: Sequence[ast.stmt]) -> Optional[ast.expr]:
+    """Guard-clause bodies (`if t: return a` ... `return b`, optionally if/else of returns) as one expression.
+    `if t: return False; return x` -> `not t and x`;  `if t: return True; return x` -> `t or x`;  otherwise a conditional expression."""
+    if not body:
+        return None
+    st = body[0]
+    if isinstance(st, ast.Return):
+        return st.value if st.value is not None else ast.Constant(value=None)
+    if isinstance(st, ast.If):
+        a = _expr_form(st.body)
+        if a is None or not _ends(st.body):
+            return None
+        b = _expr_form(list(st.orelse) if st.orelse else list(body[1:]))
+        if b is None:
+            return None
+        if st.orelse and not _ends(st.orelse):
+            return None
+        if isinstance(a, ast.Constant) and a.value is False:
+            return ast.BoolOp(op=ast.And(), values=[ast.UnaryOp(op=ast.Not(), operand=st.test), b])
+        if isinstance(a, ast.Constant) and a.value is True:
+            return ast.BoolOp(op=ast.Or(), values=[st.test, b])
+        return ast.IfExp(test=st.test, body=a, orelse=b)
+    return None
+
+
 class _Subst(ast.NodeTransformer):
     def __init__(self, env: Dict[str, ast.AST], ren: Dict[str, str]):
         self.env, self.ren = env, ren
@@ -177,6 +202,10 @@ def expand_call(helper: ast.FunctionDef, call: ast.Call, caller_locals: Set[str]
         stmts = [sub.visit(copy.deepcopy(s)) for s in body[:-1]]
         e = sub.visit(copy.deepcopy(body[-1].value))
         return [ast.fix_missing_locations(_relocate(s, line)) for s in prelude + stmts], ast.fix_missing_locations(_relocate(e, line))
+    ef = _expr_form(body)
+    if ef is not None:
+        e = sub.visit(copy.deepcopy(ef))
+        return [ast.fix_missing_locations(_relocate(s, line)) for s in prelude], ast.fix_missing_locations(_relocate(e, line))
     res = f"{helper.name.lstrip('_')}_result_{tag}"
     stmts = [sub.visit(s) for s in _assign_form([copy.deepcopy(s) for s in body], res)]
     return [ast.fix_missing_locations(_relocate(s, line)) for s in prelude + stmts], ast.Name(id=res, ctx=ast.Load(), lineno=line, col_offset=0)
